@@ -54,6 +54,9 @@ def ops():
         'add-gz': dict(kind='add', res=S, route='gz', pre=['C1']),
         'add-tar-package': dict(kind='add', res=S, route='tgz-package', pre=[]),
         'add-memory': dict(kind='add', res=S, route='memory', pre=['C1']),
+        # a collection = several resources in one call: one transaction per resource, so each resource
+        # must be wholly present or wholly absent and the one being added at the fault wholly absent
+        'add-collection': dict(kind='add', res=two, route='collection', pre=['A1'], per_resource=True),
         'add-ili': dict(kind='add-ili', pre=['A1']),
         'remove-base-with-extensions': dict(kind='remove', spec='a:1', pre=['A1', 'X1', 'Y1', 'B1']),
         'remove-star': dict(kind='remove', spec='*', pre=['A1', 'B1', 'C1']),
@@ -135,6 +138,32 @@ def baseline(opname):
 
 
 _BASE = {}
+_PARTIAL = {}
+
+
+def partial_states(opname):
+    """exact dumps of pre-state + exactly one of the resources of a collection"""
+    if opname in _PARTIAL:
+        return _PARTIAL[opname]
+    op = _ops()[opname]
+    out = []
+    installed = isinstance(wn._db.sqlite3, e3._Proxy)
+    e3.uninstall()
+    cur = wn.config._data_directory
+    env.close_pool()
+    for lex in op['res']['lexicons']:
+        d = env.fresh_db()
+        env.restore(pre_snapshot(op['pre']))
+        env.add_resource(mk.resource([copy.deepcopy(lex)], op['res']['lmf_version']))
+        env.close_pool()
+        out.append(observe.exact_dump(env.db_path()))
+        env.drop_db(d)
+    wn.config.data_directory = cur
+    if installed:
+        e3.install()
+    _PARTIAL[opname] = out
+    return out
+
 
 
 def per_lexicon_ok(pre, after, final):
@@ -158,6 +187,7 @@ def check(case):
     pre, counts, post_c, post_e = _BASE[opname]
     V, digs = [], []
     n = 0
+    partial = partial_states(opname) if op.get('per_resource') else []
     e3.install()
     dbdir = env.fresh_db()
     snap = pre_snapshot(op['pre'])
@@ -211,6 +241,8 @@ def check(case):
                         V.append((K_CLOSE_REMOVE, f'{what}: the call raised but the lexicon is removed', None, one))
                     elif op['kind'] == 'remove' and op['spec'] == '*' and _whole_lexicons(pre, now):
                         digs.append('per-lexicon')
+                    elif now in partial:
+                        digs.append('per-resource')
                     else:
                         tables = sorted(t for t in now if now[t] != pre[t])
                         V.append((f'{op["kind"]}:database-changed-by-failed-call:{kind}',
